@@ -768,6 +768,7 @@ def cases(tier, seed):
         out.append(Case("H10.a", f"group-chain:{path}", M, "h_group_chain", {"path": path}, opts=opts, validate=1))
     for kind in ILL_FORMED:
         out.append(Case("H10.e", kind, M, "h_ill_formed", {"kind": kind}, opts=opts, validate=1))
+    out.append(Case("H10.obs", "observed", "pvlib.harness.observed", "h_c10", {}, kind="conc"))
     for tname in ("float", "Decimal"):
         out.append(Case("H10.a", f"decimal-literals:{tname}-registry", M, "h_decimal_literals_other_types", {"tname": tname}, kind="conc"))
     for mode in ("raise", "warn", "ignore"):
